@@ -157,3 +157,42 @@ def twin(sel: int, v0: bool) -> bool:
     """
     ok = fname(sel, v0, False, False, False)
     return not (ok and sel == 1 and v0)
+
+
+# ---------------------------------------------------------------------------- module-name collisions of one proto file
+def _names_api(m1a, m1b, m2a, m2b, one_msg):
+    """library.proto with messages M1, M2 whose fields may use `Thing` from the API's own common.proto and/or `Thing` from
+    google/shared/v1/common.proto (another package, same module name `common`)."""
+    from gapic.schema import api as api_mod
+    from gapic.utils import Options
+    from lib import gen
+    pkg = "google.example.nm.v1"
+    shared = gen.FileBuilder("google/shared/v1/common.proto", "google.shared.v1")
+    shared.message("Thing", [("x", "string")])
+    own = gen.FileBuilder("google/example/nm/v1/common.proto", pkg)
+    own.message("Thing", [("y", "string")])
+    lib = gen.FileBuilder("google/example/nm/v1/library.proto", pkg, deps=[shared.f.name, own.f.name])
+    f1 = [("n", "string")] + ([("a", "msg:Thing")] if m1a else []) + ([("b", "msg:.google.shared.v1.Thing")] if m1b else [])
+    f2 = [("n", "string")] + ([("a", "msg:Thing")] if m2a else []) + ([("b", "msg:.google.shared.v1.Thing")] if m2b else [])
+    if one_msg:
+        lib.message("M1", f1 + [(n + "2", t) for n, t in f2[1:]])
+    else:
+        lib.message("M1", f1)
+        lib.message("M2", f2)
+    s = lib.service("Svc")
+    lib.method(s, "Get", "M1", "M1", http=("get", "/v1/x"))
+    api = api_mod.API.build(gen.dep_files() + [shared.f, own.f, lib.f], package=pkg, opts=Options.build("transport=grpc"))
+    return api.protos["google/example/nm/v1/library.proto"]
+
+
+def proto_names(m1a: bool, m1b: bool, m2a: bool, m2b: bool, one_msg: bool) -> bool:
+    """
+    post: _
+    """
+    # `common` is a collision of library.proto iff the FILE (any of its messages) uses both same-named modules:
+    # the import block of types/library.py is per file, not per message
+    m1a, m1b, m2a, m2b, one_msg = bool(m1a), bool(m1b), bool(m2a), bool(m2b), bool(one_msg)
+    with untraced():
+        proto = _names_api(m1a, m1b, m2a, m2b, one_msg)
+        want = (m1a or m2a) and (m1b or m2b)
+        return ("common" in proto.names) == want
